@@ -208,6 +208,8 @@ def run(ctx):
     for i in range(ctx.n(120, 5000)):
         seed = ctx.rng.randrange(10 ** 9)
         opts = ctx.rng.choice([{}, dict(geoms=3, prims=5), dict(lights=4, cameras=4, effects=4), dict(nodes=5, depth=4), dict(ints=True)])
+        if ctx.rng.random() < 0.5:
+            opts = dict(opts, anyaxis=True)        # rotation axes need not be unit vectors
         try:
             doc = modelgen.build(seed, opts)
         except Exception as e:
